@@ -158,13 +158,14 @@ class SetupRiemannProblem(object):
     
     
     def determine_shock_angle(self, state):
-        angle = self.deflection_angle_solution
-        _, _, M, _, g = state
+        _, _, M, theta_deg, g = state
+        theta_rad = theta_deg / 180. * pi
+        angle = self.deflection_angle_solution - theta_rad
         def get_shock_contact_angle(x):
             val  = 2. / tan(x) * (M**2 * sin(x)**2 - 1.)
             val /= (2. + M**2 * (g + cos(2. * x)))
             return val
-        return fsolve(lambda x:
+        return theta_rad + fsolve(lambda x:
                       get_shock_contact_angle(x)-tan(angle), angle)[0]
     
 
